@@ -38,16 +38,20 @@ Bind(s, key, n, v) == [s EXCEPT !.ns = [@ EXCEPT ![key] = Put(@, n, v)]]
 NsOf(s, key) == IF key \in DOMAIN s.ns THEN s.ns[key] ELSE Empty
 ModKey(i) == <<i, 0>>
 
-\* attribute lookup on a value
-RECURSIVE Attr(_, _, _, _)
+\* Python's linearisation of a class value (C3 over the values of its base expressions that are classes)
+IsClassVal(s, v) == v.t = "obj" /\ <<v.i, v.pc>> \in DOMAIN s.ns
+RECURSIVE PyMro(_, _, _)
+PyMro(s, v, fuel) ==
+  IF fuel = 0 THEN <<v>> ELSE
+  LET bs == SelectSeq(s.bases[<<v.i, v.pc>>], LAMBDA b : IsClassVal(s, b))
+  IN <<v>> \o MergeM([k \in 1..Len(bs) |-> PyMro(s, bs[k], fuel - 1)] \o <<bs>>, 16, NoVal)
+\* attribute lookup on a value: module namespace, or the first class along the MRO that binds the name
 Attr(s, v, n, fuel) ==
   IF v.t = "mod" THEN (IF n \in DOMAIN NsOf(s, ModKey(v.i)) THEN s.ns[ModKey(v.i)][n] ELSE NoVal)
-  ELSE IF v.t = "obj" /\ <<v.i, v.pc>> \in DOMAIN s.ns                      \* a class
-    THEN IF n \in DOMAIN s.ns[<<v.i, v.pc>>] THEN s.ns[<<v.i, v.pc>>][n]
-         ELSE IF fuel = 0 THEN NoVal
-         ELSE LET bs == s.bases[<<v.i, v.pc>>]
-                  hits == {k \in 1..Len(bs) : Attr(s, bs[k], n, fuel - 1).t # "none"}
-              IN IF hits = {} THEN NoVal ELSE Attr(s, bs[CHOOSE k \in hits : \A j \in hits : k <= j], n, fuel - 1)
+  ELSE IF IsClassVal(s, v)
+    THEN LET m == PyMro(s, v, 8)
+             hits == {k \in 1..Len(m) : m[k].t = "obj" /\ n \in DOMAIN NsOf(s, <<m[k].i, m[k].pc>>)}
+         IN IF hits = {} THEN NoVal ELSE s.ns[<<m[CHOOSE k \in hits : \A j \in hits : k <= j].i, m[CHOOSE k \in hits : \A j \in hits : k <= j].pc>>][n]
   ELSE NoVal
 \* a bare name read in a scope: the innermost class namespace, then the module's globals
 Lookup(s, scopes, n) ==
